@@ -229,7 +229,8 @@ Section Algebra.
     - change (2 ^ 0) with 1. now rewrite Z.mod_1_r.
   Qed.
 
-  (* discriminate / inversion must never unfold the 256-step loop *)
+  (* NB: discriminate / inversion / easy ignore opacity and would unfold the 256-step loop of
+     point_mul_with (exponential): always rewrite with point_mul_smul first, or use congruence. *)
   Local Opaque point_mul_with le_bytes le_val.
 
   (* ---------------- parity and negation ---------------- *)
@@ -296,8 +297,8 @@ Section Algebra.
     1 <= be_val key <= n - 1 /\ smul (be_val key) G = Some (px, py).
   Proof.
     intros Hn. unfold full_pubkey_gen. cbv zeta.
-    destruct (Z.leb_spec 1 (be_val key)), (Z.leb_spec (be_val key) (n - 1)); cbn [andb negb]; try discriminate.
-    intros E. rewrite point_mul_smul in E by (try apply onG; lia). split; [lia|exact E].
+    destruct (Z.leb_spec 1 (be_val key)), (Z.leb_spec (be_val key) (n - 1)); cbn [andb negb];
+      intros E; try congruence. rewrite point_mul_smul in E by (try apply onG; lia). split; [lia|exact E].
   Qed.
 
   Theorem taproot_tweak_model key t px py kb qx qy odd :
@@ -325,5 +326,236 @@ Section Algebra.
     destruct (Z.even qy0) eqn:Ev; cbn [negb]; repeat split; auto.
     - right. ring.
     - now rewrite even_flip, Ev.
+  Qed.
+
+  (* ---------------- C. BIP340 ---------------- *)
+  Variable sha256 : bytes -> bytes.
+
+  Lemma coords x y : on (Some (x, y)) -> 0 <= x < p /\ 0 < y < p.
+  Proof. apply (cl_coords _ _ _ _ _ _ L). Qed.
+
+  (* lift_x returns the even-y point with the given x *)
+  Lemma lift_even x y : on (Some (x, y)) -> Z.even y = true -> lift x = Some (x, y).
+  Proof.
+    intros Hon Hev. destruct (lift x) as [Q|] eqn:E.
+    - destruct (cl_lift_some _ _ _ _ _ _ L x (Some Q) E ltac:(congruence)) as (y' & EQ & HonQ & Hev').
+      rewrite EQ in *. destruct (cl_x_det _ _ _ _ _ _ L x y y' Hon HonQ) as [->| ->]; auto.
+      rewrite even_flip, Hev in Hev'. cbn in Hev'. congruence.
+    - exfalso. exact (cl_lift_none _ _ _ _ _ _ L x E y Hon).
+  Qed.
+
+  Definition chal (rb pk msg : bytes) : Z :=
+    be_val (stag sha256 "BIP0340/challenge" (rb ++ pk ++ msg)) mod n.
+
+  (* schnorr_verify accepts exactly when ... (pure unfolding, the loop is left as is) *)
+  Lemma verify_true msg pk sig :
+    schnorr_verify sha256 p n add lift G msg pk sig = Some true <->
+    length msg = 32%nat /\ length pk = 32%nat /\ length sig = 64%nat /\
+    exists P ry, lift (be_val pk) = Some P /\ be_val (firstn 32 sig) < p /\ be_val (skipn 32 sig) < n /\
+      add (point_mul_with add G (be_val (skipn 32 sig)))
+          (point_mul_with add (Some P) (n - chal (firstn 32 sig) pk msg))
+        = Some (be_val (firstn 32 sig), ry) /\ Z.even ry = true.
+  Proof.
+    unfold schnorr_verify, chal. cbv zeta.
+    destruct (Nat.eqb_spec (length msg) 32), (Nat.eqb_spec (length pk) 32),
+      (Nat.eqb_spec (length sig) 64); cbn [negb orb].
+    all: try (split; [congruence | intros (?&?&?&?); congruence]).
+    destruct (lift (be_val pk)) as [P|] eqn:EL.
+    2: { split; [congruence|intros (_&_&_&P&ry&E&_); congruence]. }
+    destruct (Z.leb_spec p (be_val (firstn 32 sig))), (Z.leb_spec n (be_val (skipn 32 sig))); cbn [orb].
+    1-3: split; [congruence|intros (_&_&_&P'&ry&_&?&?&_); lia].
+    destruct (add _ _) as [[rx ry]|] eqn:EA.
+    - split.
+      + intros H1. assert (H2 : Z.even ry && (rx =? be_val (firstn 32 sig)) = true) by congruence.
+        apply andb_true_iff in H2 as [Hev Hrx]. apply Z.eqb_eq in Hrx. subst rx.
+        repeat split; auto. exists P, ry. repeat split; auto.
+      + intros (_&_&_&P'&ry'&E1&_&_&E2&Hev).
+        assert (P' = P) by congruence. subst P'. rewrite E2 in EA.
+        assert (rx = be_val (firstn 32 sig) /\ ry = ry') as [-> ->] by (split; congruence).
+        now rewrite Hev, Z.eqb_refl.
+    - split; [congruence|].
+      intros (_&_&_&P'&ry'&E1&_&_&E2&Hev).
+      assert (P' = P) by congruence. subst P'. congruence.
+  Qed.
+
+  Theorem schnorr_verify_ranges msg pk sig :
+    schnorr_verify sha256 p n add lift G msg pk sig = Some true ->
+    be_val (firstn 32 sig) < p /\ be_val (skipn 32 sig) < n /\ lift (be_val pk) <> None.
+  Proof.
+    intros H. apply verify_true in H as (_&_&_&P&ry&E&?&?&_). repeat split; auto. congruence.
+  Qed.
+
+  Theorem schnorr_s_unique msg pk rb sb sb' :
+    length rb = 32%nat -> length sb = 32%nat -> length sb' = 32%nat ->
+    wf_bytes sb -> wf_bytes sb' ->
+    schnorr_verify sha256 p n add lift G msg pk (rb ++ sb) = Some true ->
+    schnorr_verify sha256 p n add lift G msg pk (rb ++ sb') = Some true -> sb = sb'.
+  Proof.
+    intros Hr Hs Hs' Hw Hw' V1 V2. pose proof n_pos as Hn.
+    apply verify_true in V1 as (_&_&_&P&ry&EL&_&Hsn&E1&Hev).
+    apply verify_true in V2 as (_&_&_&P'&ry'&EL'&_&Hsn'&E2&Hev').
+    assert (P' = P) by congruence; subst P'. clear EL'.
+    rewrite (firstn_app_len 32 rb) in E1, E2 by auto.
+    rewrite (skipn_app_len 32 rb) in Hsn, Hsn', E1, E2 by auto.
+    pose proof (be_val_32_bound sb Hw Hs) as Hb. pose proof (be_val_32_bound sb' Hw' Hs') as Hb'.
+    rewrite (point_mul_smul G) in E1, E2 by (try apply onG; lia).
+    destruct (cl_lift_some _ _ _ _ _ _ L (be_val pk) (Some P) EL ltac:(congruence)) as (y & EQ & HonP & _).
+    set (X := point_mul_with add (Some P) _) in *.
+    assert (HX : on X) by (apply point_mul_on; exact HonP).
+    assert (H1 : on (Some (be_val rb, ry))) by (rewrite <- E1; apply onA; auto using smul_on, onG).
+    assert (H2 : on (Some (be_val rb, ry'))) by (rewrite <- E2; apply onA; auto using smul_on, onG).
+    assert (ry' = ry).
+    { destruct (cl_x_det _ _ _ _ _ _ L _ _ _ H1 H2) as [E|E]; [exact E|exfalso].
+      rewrite E, even_flip, Hev in Hev'. cbn in Hev'. congruence. }
+    subst ry'. rewrite <- E2 in E1.
+    apply add_cancel_r in E1; auto using smul_on, onG.
+    apply smul_G_inj in E1. rewrite !Z.mod_small in E1 by lia.
+    rewrite <- (be_bytes_be_val sb), <- (be_bytes_be_val sb') by auto.
+    now rewrite Hs, Hs', E1.
+  Qed.
+
+  Theorem schnorr_sign_verifies msg key aux sig :
+    schnorr_sign sha256 p n add lift G msg key aux = Some sig ->
+    exists px py, full_pubkey_gen n add G key = Some (px, py) /\
+      schnorr_verify sha256 p n add lift G msg (be_bytes 32 px) sig = Some true /\ length sig = 64%nat.
+  Proof.
+    unfold schnorr_sign, full_pubkey_gen. cbv zeta.
+    destruct (negb (Nat.eqb (length msg) 32)); [congruence|].
+    destruct (negb ((1 <=? be_val key) && (be_val key <=? n - 1))); [congruence|].
+    destruct (negb (Nat.eqb (length aux) 32)); [congruence|].
+    destruct (point_mul_with add G (be_val key)) as [[px py]|]; cbn [obind]; [|congruence].
+    destruct (bytes_from_int (if Z.even py then _ else _)) as [db|]; cbn [obind]; [|congruence].
+    destruct (bytes_from_int px) as [pxb|] eqn:Epx; cbn [obind]; [|congruence].
+    apply bytes_from_int_some in Epx as [_ ->].
+    destruct (_ =? 0); [congruence|].
+    destruct (point_mul_with add G _) as [[rx ry]|]; cbn [obind]; [|congruence].
+    destruct (bytes_from_int rx) as [rxb|]; cbn [obind]; [|congruence].
+    destruct (bytes_from_int (_ mod n)) as [sb|]; cbn [obind]; [|congruence].
+    destruct (schnorr_verify _ _ _ _ _ _ _ _ _) as [[|]|] eqn:EV; try congruence.
+    intros H. assert (rxb ++ sb = sig) by congruence. subst sig.
+    exists px, py. split; [reflexivity|]. split; [exact EV|].
+    apply verify_true in EV. tauto.
+  Qed.
+
+  (* s*G + (n - e)*P = k*G  for  s = (k + e d) mod n,  P = d*G *)
+  Lemma sign_eq k e d : add (smul ((k + e * d) mod n) G) (smul (n - e) (smul d G)) = smul k G.
+  Proof.
+    pose proof n_pos. rewrite smul_mod, <- smul_mul, <- smul_add by apply onG. apply smul_G_inj.
+    replace (k + e * d + (n - e) * d) with (k + d * n) by ring. apply Z.mod_add. lia.
+  Qed.
+
+  Theorem schnorr_sign_total msg key aux : n < 2 ^ 256 -> p < 2 ^ 256 ->
+    length msg = 32%nat -> length aux = 32%nat -> wf_bytes key -> length key = 32%nat ->
+    1 <= be_val key <= n - 1 ->
+    schnorr_sign sha256 p n add lift G msg key aux = None ->
+    exists px py, full_pubkey_gen n add G key = Some (px, py) /\
+      let d := if Z.even py then be_val key else n - be_val key in
+      be_val (stag sha256 "BIP0340/nonce"
+                (xor_bytes (be_bytes 32 d) (stag sha256 "BIP0340/aux" aux) ++ be_bytes 32 px ++ msg)) mod n = 0.
+  Proof.
+    intros Hn Hp Hmsg Haux Hwf Hlen Hd0 Hsign. pose proof n_pos as Hn2.
+    set (d0 := be_val key) in *.
+    destruct (smul d0 G) as [[px py]|] eqn:EP.
+    2: { apply smul_G_none in EP. rewrite Z.mod_small in EP by lia. lia. }
+    assert (Hpk : full_pubkey_gen n add G key = Some (px, py)).
+    { unfold full_pubkey_gen. cbv zeta. fold d0.
+      destruct (Z.leb_spec 1 d0), (Z.leb_spec d0 (n - 1)); cbn [andb negb]; try lia.
+      rewrite point_mul_smul by (try apply onG; lia). exact EP. }
+    exists px, py. split; [exact Hpk|]. cbv zeta. fold d0.
+    assert (HonP : on (Some (px, py))) by (rewrite <- EP; apply smul_on, onG).
+    destruct (coords _ _ HonP) as [Hpx Hpy].
+    pose proof (even_norm _ _ _ EP) as EP'. pose proof (even_norm_even py) as Hev.
+    set (d := if Z.even py then d0 else n - d0) in *.
+    set (py' := if Z.even py then py else p - py) in *.
+    assert (Hd : 1 <= d <= n - 1) by (subst d; destruct (Z.even py); lia).
+    assert (HL : lift px = Some (px, py')).
+    { apply lift_even; [rewrite <- EP'; apply smul_on, onG|exact Hev]. }
+    unfold schnorr_sign in Hsign. cbv zeta in Hsign. fold d0 in Hsign.
+    rewrite Hmsg, Haux in Hsign. change (Nat.eqb 32 32) with true in Hsign.
+    destruct (Z.leb_spec 1 d0), (Z.leb_spec d0 (n - 1)); try lia. cbn [andb negb] in Hsign.
+    rewrite (point_mul_smul G d0), EP in Hsign by (try apply onG; lia). cbn [obind] in Hsign.
+    fold d in Hsign. rewrite (bytes_from_int_ok d), (bytes_from_int_ok px) in Hsign by lia.
+    cbn [obind] in Hsign.
+    match type of Hsign with context [if ?c =? 0 then _ else _] => set (k0 := c) in * end.
+    destruct (Z.eqb_spec k0 0) as [|Hk0]; [assumption|exfalso].
+    assert (Hk0r : 0 <= k0 < n) by (subst k0; apply Z.mod_pos_bound; lia).
+    rewrite (point_mul_smul G k0) in Hsign by (try apply onG; lia).
+    destruct (smul k0 G) as [[rx ry]|] eqn:ER.
+    2: { apply smul_G_none in ER. rewrite Z.mod_small in ER by lia. lia. }
+    cbn [obind] in Hsign.
+    assert (HonR : on (Some (rx, ry))) by (rewrite <- ER; apply smul_on, onG).
+    destruct (coords _ _ HonR) as [Hrx Hry].
+    pose proof (even_norm _ _ _ ER) as ER'. pose proof (even_norm_even ry) as Hevr.
+    replace (if negb (Z.even ry) then n - k0 else k0) with (if Z.even ry then k0 else n - k0) in Hsign
+      by now destruct (Z.even ry).
+    set (k := if Z.even ry then k0 else n - k0) in *.
+    set (ry' := if Z.even ry then ry else p - ry) in *.
+    rewrite (bytes_from_int_ok rx) in Hsign by lia. cbn [obind] in Hsign.
+    fold (chal (be_bytes 32 rx) (be_bytes 32 px) msg) in Hsign.
+    set (e := chal (be_bytes 32 rx) (be_bytes 32 px) msg) in *.
+    assert (He : 0 <= e < n) by (subst e; unfold chal; apply Z.mod_pos_bound; lia).
+    pose proof (Z.mod_pos_bound (k + e * d) n ltac:(lia)) as Hs.
+    rewrite (bytes_from_int_ok ((k + e * d) mod n)) in Hsign by lia. cbn [obind] in Hsign.
+    assert (EV : schnorr_verify sha256 p n add lift G msg (be_bytes 32 px)
+                   (be_bytes 32 rx ++ be_bytes 32 ((k + e * d) mod n)) = Some true).
+    { apply verify_true. rewrite app_length, !be_bytes_length.
+      repeat split; auto. exists (px, py'), ry'.
+      rewrite (firstn_app_len 32), (skipn_app_len 32) by apply be_bytes_length.
+      rewrite !be_val_be32 by lia. fold e.
+      repeat split; auto; try lia.
+      rewrite (point_mul_smul G), point_mul_smul by (try apply onG; try lia; rewrite <- EP'; apply smul_on, onG).
+      rewrite <- EP', sign_eq. exact ER'. }
+    rewrite EV in Hsign. congruence.
+  Qed.
+
+  (* ---------------- D. key-path signatures ---------------- *)
+  (* the tweak is the integer value of a hash: it is below 2^256 only for a 32-byte hash function *)
+  Hypothesis Hsha_len : forall x, length (sha256 x) = 32%nat.
+  Hypothesis Hsha_wf : forall x, wf_bytes (sha256 x).
+
+  Lemma calculate_tweak_range pub sc t : calculate_tweak sha256 pub sc = Some t -> 0 <= t < 2 ^ 256.
+  Proof.
+    assert (HT : forall d tag, 0 <= be_val (tagged_hash sha256 d tag) < 2 ^ 256)
+      by (intros; unfold tagged_hash; apply be_val_32_bound; auto).
+    unfold calculate_tweak. cbv zeta.
+    destruct (bytes_from_int (fst pub)) as [kx|]; cbn [obind]; [|congruence].
+    intros E.
+    destruct sc as [|[]|[]]; cbn [obind] in E;
+      repeat match type of E with context [obind ?o _] => destruct o; cbn [obind] in E end;
+      try congruence; injection E as <-; apply HT.
+  Qed.
+
+  Theorem keypath_signature_verifies key digest ht sc sig xb odd pub :
+    n < 2 ^ 256 -> p < 2 ^ 256 -> wf_bytes key -> length key = 32%nat ->
+    full_pubkey_gen n add G key = Some pub ->
+    sign_taproot sha256 p n add lift G n key digest ht sc true = Some sig ->
+    to_taproot sha256 add G p pub sc = Some (xb, odd) ->
+    schnorr_verify sha256 p n add lift G digest xb (firstn 64 sig) = Some true /\
+    (ht = Gen.Tables.taproot_sighash_all -> length sig = 64%nat) /\
+    (ht <> Gen.Tables.taproot_sighash_all -> length sig = 65%nat /\ last sig 0 = ht).
+  Proof.
+    intros Hn Hp Hwf Hlen Hpk Hs Ht. destruct pub as [px py].
+    unfold sign_taproot in Hs. rewrite Hpk in Hs. cbn [obind] in Hs.
+    unfold to_taproot in Ht.
+    destruct (calculate_tweak sha256 (px, py) sc) as [t|] eqn:Et; cbn [obind] in Hs, Ht; [|congruence].
+    apply calculate_tweak_range in Et.
+    destruct (tweak_taproot_privkey n add G n key t) as [kb|] eqn:Ekb; cbn [obind] in Hs; [|congruence].
+    destruct (tweak_taproot_pubkey add G p (px, py) t) as [[[qx qy] odd']|] eqn:Eq; cbn [obind] in Ht; [|congruence].
+    destruct (bytes_from_int qx) as [xb'|] eqn:Exb; cbn [obind] in Ht; [|congruence].
+    apply bytes_from_int_some in Exb as [Hqx ->].
+    assert (xb = be_bytes 32 qx) by congruence. subst xb.
+    destruct (schnorr_sign _ _ _ _ _ _ _ _ _) as [sig0|] eqn:Ess; cbn [obind] in Hs; [|congruence].
+    apply schnorr_sign_verifies in Ess as (px' & py' & Epk' & EV & Hl).
+    destruct (taproot_tweak_model key t px py kb qx qy odd' Hn Hp Hwf Hlen Et Hpk Ekb Eq) as (y & Ey & _).
+    apply full_pubkey_gen_some in Epk' as [_ Epk']; [|exact Hn].
+    rewrite Ey in Epk'. assert (qx = px') by congruence. subst px'.
+    destruct (Z.eqb_spec ht Gen.Tables.taproot_sighash_all) as [Eh|Eh].
+    - assert (sig0 = sig) by congruence. subst sig0.
+      rewrite <- Hl, firstn_all. split; [exact EV|]. split; [reflexivity|intros; contradiction].
+    - destruct ((0 <=? ht) && (ht <? 256)); [|congruence].
+      assert (sig = sig0 ++ [ht]) by congruence. subst sig.
+      rewrite (firstn_app_len 64) by exact Hl.
+      split; [exact EV|]. split; [intros; contradiction|]. intros _.
+      rewrite app_length, Hl, last_last. split; reflexivity.
   Qed.
 End Algebra.
